@@ -182,6 +182,8 @@ class GatedFileLock(filelock.FileLock):
             return super().acquire(*args, **kwargs)
         st = ctl.threads[threading.get_ident()]
         timeout = kwargs.get('timeout', args[0] if args else None)
+        if timeout is None:
+            timeout = self.timeout          # the lock object's own default (negative: wait forever)
         if kwargs.get('blocking') is False or (timeout is not None and timeout >= 0):
             # a caller that does not want to wait (try-lock, or a bounded wait: under the controller nobody else advances meanwhile, so the
             # wait would end as it began): one attempt, failure is reported to the caller as the real lock would
